@@ -32,7 +32,7 @@ func init() {
 	Register(&Property{
 		ID:             "C20",
 		Run:            runC20,
-		Rule:           "runs = either (a) a walk of the simulated clock from before genesis through 200-2000 instants (slot edges -1s/0/+1s/+299s/+300s, strides of hours to years, the end of the 32 bit second range in year 2159) comparing CurrentTimeslot, UnixToTimeslot and TimeslotToUnix with an integer model, round trip and monotonicity, or (c) a production-constant server run of 2-4 simulated weeks with two devices reporting now+432 and now-432 every slot, the rotation thread delayed by up to one check period, WattTime answering, slow or failing; non-trivial = a cadence run that rotated at least once with a delayed rotation thread, or a clock walk that crossed the far end; distinct = distinct decision signatures",
+		Rule:           "runs = either (a) a walk of the simulated clock from before genesis through 200-2000 instants (slot edges -1s/0/+1s/+299s/+300s, strides of hours to years, the end of the 32 bit second range in year 2159) comparing CurrentTimeslot, UnixToTimeslot and TimeslotToUnix with an integer model, round trip and monotonicity, or (c) a production-constant server run of 2-4 simulated weeks with two devices reporting now+432 and now-432 every slot and, now and then, 433-2000 slots off (which must leave no trace), the rotation thread delayed by up to one check period, WattTime answering, slow or failing; non-trivial = a cadence run that rotated at least once with a delayed rotation thread, or a clock walk that crossed the far end; distinct = distinct decision signatures",
 		Real:           []string{"glow timeslot conversions and the production CurrentTimeslot", "production-constant server: rotation loop (hourly check), impact loop, weekly WattTime refresh, report handler"},
 		Stub:           []string{"system clock (bubble clock, 2000-01-01 onwards, forward only)", "WattTime service (harness responder behind http.DefaultTransport)", "socket listeners"},
 		Assumptions:    []string{"the pure conversion functions are exercised at the instants the simulated clock visits plus the listed boundaries (input enumeration, not simulation)", "the acceptance comparison at now<432 is covered by C01 (test flavour); now near 2^32 is unreachable by real rotations"},
